@@ -129,10 +129,13 @@ def freshness(sem):
         txt.append(key)
         if key in RW:
             wr, rd = RW[key]; need = rd - {'data'} - cur
-            if key == 'normalize' and first_normalize and need == {'filling'}:
-                # the charges are still those the constructor measured on its own normalised Gaussian: equal to the set shares within rounding (C09), so this rescaling is the identity within rounding
-                need = set()
-            if key == 'normalize': first_normalize = False
+            if key == 'normalize':
+                # start-up renormalisation of a loaded grid: normalize() scales by set share / charge held by the object.  The uninterrupted run is not rescaled at this instant, so the
+                # scaling must be the identity: the charges must still be the constructor's own (== the set shares, C09), not the measured charge of the loaded data (a stored state that
+                # has lost charge would be scaled back up) and not anything else
+                if 'filling' in cur: return False, 'the start-up normalize() divides by the measured charge of the loaded grid: a continued run is rescaled where the uninterrupted run is not', txt
+                if not first_normalize: return False, 'a second normalize() before the loop', txt
+                first_normalize = False; continue          # identity within rounding: nothing changes
             if need: return False, '%s() reads %s, not recomputed from the loaded grid' % (key, sorted(need)), txt
             if 'data' in wr: cur = set()      # the grid changed: everything derived is stale again
             else: cur |= wr
